@@ -6,7 +6,7 @@ import numpy as np
 
 from symx import core, env, lam, harness, vfs, symnp as snp
 from symx.core import SymInt, SymReal, SymBool, sand, sor, snot, implies, ite, ssum
-from checks import alfconv, datasets
+from checks import alfconv, datasets, models
 from checks.datasets import RATE
 
 PID = 'C14'
@@ -43,6 +43,10 @@ def _close(g, w):
     if not isinstance(g, core.Sym) and not isinstance(w, core.Sym):
         return abs(g - w) <= 1e-5 * (1 + abs(w))
     return g == w
+
+
+def _isnan(x):
+    return not isinstance(x, core.Sym) and x != x
 
 
 def _conc(x):
@@ -165,6 +169,40 @@ def run_config(cfg, e):
                         obl.append((cw.a[cl, s_, j] * cnt * float(au[cl]) == tot * float(au[cl]) * f * float(U[cl, s_, k]),
                                     'clusters.waveforms[%d,:,%d] is not the rescaled unwhitened waveform on channel %d' % (cl, j, k)))
         e.prove_all(obl)
+        # ---- cluster waveform values and amplitudes of a curated dataset: unwhitened cluster waveform (the
+        #      model's, C08) x mean stored amplitude of the cluster's spikes x unit factor ----
+        if conc_tpl and curated and not any(isinstance(a, core.Sym) for a in ds.am):
+            stv = [_conc(x) for x in ds.st]
+            scv = [_conc(x) for x in ds.sc]
+            cdata = snp.asarray(m.sparse_clusters.data)
+            camp = A('clusters.amps')
+            obl = []
+            for cl in range(nclu):
+                mem = [float(ds.am[i]) for i in range(ns) if scv[i] == cl]
+                if not mem:
+                    continue
+                chs = [int(v) for v in cwc.a[cl].tolist()]
+                Ucl = [[sum((cdata.a[cl, s_, c] * float(wmi[c, k]) for c in range(nc)), SymReal(0)) for k in range(nc)]
+                       for s_ in range(nsw)]
+                tot = float(sum(mem))
+                for s_ in range(nsw):
+                    for j, k in enumerate(chs):
+                        if _isnan(cw.a[cl, s_, j]):
+                            obl.append((False, 'clusters.waveforms[%d] is NaN although the cluster has spikes' % cl))
+                            continue
+                        d_ = cw.a[cl, s_, j] * len(mem) - Ucl[s_][k] * (tot * f)
+                        obl.append((sand(d_ <= 1e-6, d_ >= -1e-6),
+                                    'clusters.waveforms[%d,:,%d] is not the rescaled unwhitened cluster waveform on channel %d' % (cl, j, k)))
+                ptp = models.ptp_terms([[Ucl[s_][k] for k in range(nc)] for s_ in range(nsw)])
+                aucl = ptp[0]
+                for v in ptp[1:]:
+                    aucl = ite(v > aucl, v, aucl)
+                if _isnan(camp.a[cl]):
+                    obl.append((False, 'clusters.amps[%d] is NaN although the cluster has spikes' % cl))
+                    continue
+                d_ = camp.a[cl] * len(mem) - aucl * (tot * f)
+                obl.append((sand(d_ <= 1e-6, d_ >= -1e-6), 'clusters.amps[%d] is not the largest peak-to-peak value x mean amplitude x factor' % cl))
+            e.prove_all(obl)
         # ---- cluster depths / durations / spike depths ----
         cch = A('clusters.channels')
         cdep, cdur = A('clusters.depths'), A('clusters.peakToTrough')
@@ -280,6 +318,24 @@ def replay(case):
                     return 'empty cluster %d: depth %s duration %s' % (cl, cdep[cl], cdur[cl])
             elif abs(cdep[cl] - pos[int(cch[cl]), 1]) > 1e-9:
                 return 'clusters.depths[%d] = %s, depth of its peak channel %d is %s' % (cl, cdep[cl], cch[cl], pos[int(cch[cl]), 1])
+        # cluster waveforms and amplitudes: unwhitened cluster waveform (C08) times the mean stored amplitude of the
+        # cluster's spikes times the unit factor; amplitude = its largest peak-to-peak value
+        cw, cwc, camp = rc.load('clusters.waveforms'), rc.load('clusters.waveformsChannels'), rc.load('clusters.amps')
+        cdata = np.asarray(m.sparse_clusters.data, dtype=float)
+        for cl in range(nclu):
+            mem = [am[i] for i in range(ns) if (sc[i] if curated else st[i]) == cl]
+            if not mem:
+                continue
+            Ucl = cdata[cl] @ np.linalg.inv(wm)
+            aucl = (Ucl.max(axis=0) - Ucl.min(axis=0)).max()
+            if aucl <= 0:
+                continue
+            wantw = Ucl[:, [int(v) for v in cwc[cl]]] * np.mean(mem) * f
+            if not np.allclose(cw[cl], wantw, rtol=1e-4, atol=1e-6):
+                return 'clusters.waveforms[%d] = %s, rescaled unwhitened cluster waveform is %s' % (
+                    cl, cw[cl].tolist(), wantw.tolist())
+            if abs(camp[cl] - aucl * np.mean(mem) * f) > 1e-5 * max(1.0, abs(camp[cl])):
+                return 'clusters.amps[%d] = %s, expected %s' % (cl, camp[cl], aucl * np.mean(mem) * f)
         sdep = rc.load('spikes.depths')
         if m.sparse_features is None:
             for i in range(ns):
